@@ -1,12 +1,12 @@
 (* C17  Endpoints move exactly N octets in order whatever the driver does.
-   Statements only (printed by Coq from the lemmas they are closed with); proofs in Proof/EndpointsLemmas.v, Proof/EndpointsTotal.v;
-   model Model/Endpoints.v (scripted drivers: every driver call consumes one behaviour event Give k | Zero | Intr | Again | Fail e; behind the
-   script the driver delivers what is asked until the stream ends).
-   Proved for EVERY script, octet- and chunk-style drivers: the get/put sides and their at-most variants incl. termination of the retry loops;
-   the per-octet, counted and draining source-to-sink plumbing without auxiliary buffer for every source script and every sink that accepts
-   or fails hard.  Correspondence only (partial): the plumbing variants with an auxiliary buffer, sinks that return 0 / EINTR / EAGAIN on a
-   single octet inside the plumbing (the octet already taken from the source is dropped there: outside the stated domain). *)
-From Ufw Require Import Base.Bits Base.Errno Model.Endpoints Proof.EndpointsLemmas Proof.EndpointsTotal.
+   Statements only (printed by Coq from the lemmas they are closed with); proofs in Proof/EndpointsLemmas.v, Proof/EndpointsTotal.v,
+   Proof/EndpointsAux.v; model Model/Endpoints.v (scripted drivers: every driver call consumes one behaviour event
+   Give k | Zero | Intr | Again | Fail e; behind the script the driver delivers what is asked until the stream ends).
+   Proved for EVERY source script and EVERY sink script, octet- and chunk-style drivers on both sides: the get/put sides and their at-most
+   variants incl. termination of the retry loops; the per-octet, counted and draining source-to-sink plumbing without and with an auxiliary
+   buffer (what reached the sink is a prefix of the stream, a success moved exactly the requested octets in order, the calls return;
+   at most the one octet - or the one scratch-buffer load - in flight is lost when the sink fails). *)
+From Ufw Require Import Base.Bits Base.Errno Model.Endpoints Proof.EndpointsLemmas Proof.EndpointsTotal Proof.EndpointsAux.
 From Coq Require Import Lia.
 Local Open Scope N_scope.
 
@@ -91,7 +91,6 @@ Print Assumptions C17_atmost_put_terminates.
 (* source-to-sink, counted: exactly the next n octets reach the sink in order, or an error is returned and what reached the sink is a prefix of the stream (at most the one octet in flight is lost) *)
 Theorem C17_plumbing_counted :
   forall (s : src) (k : snk) (n : N) (r : dres) (s' : src) (k' : snk),
-         steady k ->
          sts_n s k n = Some (r, s', k') ->
          exists moved lost : list N,
            s_stream s = moved ++ lost ++ s_stream s' /\
@@ -110,7 +109,6 @@ Print Assumptions C17_plumbing_counted_terminates.
 (* source-to-sink, draining: everything up to the point where source or sink ended it reached the sink, in order *)
 Theorem C17_plumbing_drain :
   forall (fuel : nat) (s : src) (k : snk) (r : dres) (s' : src) (k' : snk),
-         steady k ->
          sts_drain_cbc fuel s k = Some (r, s', k') ->
          exists (moved lost : list N) (e : errno),
            r = DErr e /\
@@ -123,12 +121,12 @@ Theorem C17_plumbing_drain_terminates :
 Proof. exact (@sts_drain_total). Qed.
 Print Assumptions C17_plumbing_drain_terminates.
 
-(* one octet through *)
+(* one octet through: zero-length answers of either driver are repeated, never forwarded or counted *)
 Theorem C17_plumbing_one_octet :
   forall (s : src) (k : snk) (r : dres) (s' : src) (k' : snk),
-         steady k ->
          sts_cbc s k = (r, s', k') ->
-         steady k' /\
+         (length (s_script s') <= length (s_script s))%nat /\
+         (length (k_script k') <= length (k_script k))%nat /\
          (exists moved lost : list N,
             s_stream s = moved ++ lost ++ s_stream s' /\
             k_got k' = k_got k ++ moved /\
@@ -137,18 +135,83 @@ Theorem C17_plumbing_one_octet :
 Proof. exact (@sts_cbc_spec). Qed.
 Print Assumptions C17_plumbing_one_octet.
 
+(* the fixed-count per-octet loop *)
+Theorem C17_plumbing_fixed_count :
+  forall (n : nat) (total : N) (s : src) (k : snk) (r : dres) (s' : src) (k' : snk),
+         sts_n_cbc n total s k = (r, s', k') ->
+         exists moved lost : list N,
+           s_stream s = moved ++ lost ++ s_stream s' /\
+           k_got k' = k_got k ++ moved /\
+           (length lost <= 1)%nat /\ (forall t : N, r = DOk t -> t = total /\ length moved = n /\ lost = []).
+Proof. exact (@sts_n_cbc_spec). Qed.
+Print Assumptions C17_plumbing_fixed_count.
 
-(* non-vacuity: a chunk driver that gives 2, then nothing, is interrupted, then gives the rest; a counted transfer into a sink that fails at the third octet *)
+(* one round through the auxiliary buffer: what was read is written to the start of the scratch image only, and all of it is pushed *)
+Theorem C17_aux_round :
+  forall (s : src) (k : snk) (aux : list N) (n : N) (r : dres) (s' : src) (k' : snk) (aux' : list N),
+         sts_some_aux s k aux n = Some (r, s', k', aux') ->
+         exists d sent : list N,
+           s_stream s = d ++ s_stream s' /\
+           k_got k' = k_got k ++ sent /\
+           (exists rest : list N, d = sent ++ rest) /\
+           aux' = blit aux 0 d /\ (forall c : N, r = DOk c -> sent = d /\ N.of_nat (length d) = c /\ 1 <= c <= n).
+Proof. exact (@sts_some_aux_spec). Qed.
+Print Assumptions C17_aux_round.
+
+Theorem C17_aux_round_terminates :
+  forall (s : src) (k : snk) (aux : list N) (n : N), sts_some_aux s k aux n <> None.
+Proof. exact (@sts_some_aux_total). Qed.
+Print Assumptions C17_aux_round_terminates.
+
+(* counted, through the auxiliary buffer: exactly the next n octets in order, or an error with a prefix in the sink *)
+Theorem C17_aux_counted :
+  forall (s : src) (k : snk) (aux : list N) (n : N) (r : dres) (s' : src) (k' : snk) (aux' : list N),
+         sts_n_aux s k aux n = Some (r, s', k', aux') ->
+         exists moved lost : list N,
+           s_stream s = moved ++ lost ++ s_stream s' /\
+           k_got k' = k_got k ++ moved /\
+           (forall t : N,
+            r = DOk t -> t = n /\ moved = firstn (N.to_nat n) (s_stream s) /\ N.of_nat (length moved) = n /\ lost = []).
+Proof. exact (@sts_n_aux_spec). Qed.
+Print Assumptions C17_aux_counted.
+
+Theorem C17_aux_counted_terminates :
+  forall (s : src) (k : snk) (aux : list N) (n : N), sts_n_aux s k aux n <> None.
+Proof. exact (@sts_n_aux_total). Qed.
+Print Assumptions C17_aux_counted_terminates.
+
+(* draining through the auxiliary buffer *)
+Theorem C17_aux_drain :
+  forall (s : src) (k : snk) (aux : list N) (r : dres) (s' : src) (k' : snk) (aux' : list N),
+         sts_drain_aux s k aux = Some (r, s', k', aux') ->
+         exists (moved lost : list N) (e : errno),
+           r = DErr e /\ s_stream s = moved ++ lost ++ s_stream s' /\ k_got k' = k_got k ++ moved.
+Proof. exact (@sts_drain_aux_spec). Qed.
+Print Assumptions C17_aux_drain.
+
+Theorem C17_aux_drain_terminates :
+  forall (s : src) (k : snk) (aux : list N), sts_drain_aux s k aux <> None.
+Proof. exact (@sts_drain_aux_total). Qed.
+Print Assumptions C17_aux_drain_terminates.
+
+
+(* non-vacuity: a chunk driver that gives 2, then nothing, is interrupted, then gives the rest; a counted transfer into a sink that takes
+   nothing at first and fails at the third octet; a counted transfer through a 2-octet scratch buffer *)
 Example C17_example :
   source_get_chunk {| s_octet := false; s_stream := [1;2;3;4;5;6]; s_script := [Give 2; Zero; Intr; Give 1]; s_calls := 0 |} 5
   = Some (DOk 5, [1;2;3;4;5],
           {| s_octet := false; s_stream := [6]; s_script := []; s_calls := 5 |}).
 Proof. vm_compute. reflexivity. Qed.
 Example C17_plumbing_example :
-  let k := {| k_octet := true; k_got := []; k_script := [Give 1; Give 1; Fail EIO]; k_calls := 0 |} in
-  steady k /\
+  let k := {| k_octet := true; k_got := []; k_script := [Zero; Give 1; Zero; Give 1; Fail EIO]; k_calls := 0 |} in
   match sts_n (src_plain false [1;2;3;4;5]) k 4 with
   | Some (r, s', k') => (r, s_stream s', k_got k') = (DErr EIO, [4;5], [1;2])
   | None => False
   end.
-Proof. split; [repeat constructor; cbn; lia|vm_compute; reflexivity]. Qed.
+Proof. vm_compute. reflexivity. Qed.
+Example C17_aux_example :
+  match sts_n_aux (src_plain true [1;2;3;4;5]) (snk_plain false) [0;0] 5 with
+  | Some (r, s', k', aux') => (r, s_stream s', k_got k', aux') = (DOk 5, [], [1;2;3;4;5], [5;4])
+  | None => False
+  end.
+Proof. vm_compute. reflexivity. Qed.
